@@ -73,6 +73,10 @@ type Explorer struct {
 func schedString(devs []dev) string {
 	var parts []string
 	for _, d := range devs {
+		if d.idx < 0 {
+			parts = append(parts, fmt.Sprintf("p%d", d.alt))
+			continue
+		}
 		parts = append(parts, fmt.Sprintf("%d:%d", d.idx, d.alt))
 	}
 	return strings.Join(parts, ",")
@@ -89,6 +93,10 @@ func ParseWitness(w string) (string, []dev, error) {
 	var devs []dev
 	if w[i+1:] != "" {
 		for _, p := range strings.Split(w[i+1:], ",") {
+			if len(p) == 2 && p[0] == 'p' {
+				devs = append(devs, dev{idx: -1, alt: int(p[1] - '0'), thread: -1})
+				continue
+			}
 			a, b, ok := strings.Cut(p, ":")
 			x, e1 := strconv.Atoi(a)
 			y, e2 := strconv.Atoi(b)
@@ -104,11 +112,16 @@ func ParseWitness(w string) (string, []dev, error) {
 // RunOnce executes the scenario under the given deviations (default choice 0 everywhere else).
 func RunOnce(sc *Scenario, devs []dev) (*vsched.Execution, Outcome, string) {
 	inst := sc.New()
-	vd := make([]vsched.Dev, len(devs))
-	for i, d := range devs {
-		vd[i] = vsched.Dev{Idx: d.idx, Alt: d.alt, Thread: d.thread, NEn: d.nEn}
+	var vd []vsched.Dev
+	policy := 0
+	for _, d := range devs {
+		if d.idx < 0 {
+			policy = d.alt
+			continue
+		}
+		vd = append(vd, vsched.Dev{Idx: d.idx, Alt: d.alt, Thread: d.thread, NEn: d.nEn})
 	}
-	e := vsched.Run(vsched.Config{Devs: vd, MaxSteps: sc.MaxSteps, Monitor: inst.Monitor, Dump: inst.Dump}, inst.Body)
+	e := vsched.Run(vsched.Config{Devs: vd, Policy: policy, MaxSteps: sc.MaxSteps, Monitor: inst.Monitor, Dump: inst.Dump}, inst.Body)
 	diverged := e.Diverged
 	if e.Horizon && os.Getenv("VERIF_DEBUG") != "" {
 		n := len(e.Trace)
@@ -243,6 +256,14 @@ func (x *Explorer) Explore() bool {
 			x.St.Capped = true
 			return false
 		}
+		if x.DevBounded {
+			// the same bound around the second default schedule (youngest runnable thread first)
+			x.child = 0
+			if !x.explore([]dev{{idx: -1, alt: 1, thread: -1}}, 0, b, 0) {
+				x.St.Capped = true
+				return false
+			}
+		}
 		x.St.BoundCompleted = b
 	}
 	return true
@@ -267,7 +288,7 @@ func (x *Explorer) explore(devs []dev, cost, bound, depth int) bool {
 		x.record(e, o, devs, cost)
 	}
 	start := 0
-	if len(devs) > 0 {
+	if len(devs) > 0 && devs[len(devs)-1].idx >= 0 {
 		start = devs[len(devs)-1].idx + 1
 	}
 	for i := start; i < len(e.Trace); i++ {
@@ -309,7 +330,7 @@ func (x *Explorer) explore(devs []dev, cost, bound, depth int) bool {
 }
 
 func (x *Explorer) record(e *vsched.Execution, o Outcome, devs []dev, cost int) {
-	if len(devs) == 0 && x.C.Shard != 0 && !x.Whole {
+	if (len(devs) == 0 || len(devs) == 1 && devs[0].idx < 0) && x.C.Shard != 0 && !x.Whole {
 		return // the root execution is counted by worker 0 only
 	}
 	x.St.Execs++
